@@ -5,6 +5,8 @@ package main
 // when it was generated, so later assumptions can never help an earlier proof.
 
 import (
+	"bufio"
+	"io"
 	"bytes"
 	"context"
 	"fmt"
@@ -537,7 +539,136 @@ func modelInt(s string) (int64, bool) {
 }
 
 // solveAll decides obligations in parallel.
+// incrementalPass: one z3 process per function context; the assumption prefix is sent once and each obligation is a
+// push / check-sat / pop. Only "unsat" answers are taken from it (a proof is a proof, however it was found); everything
+// else (unknown, timeout, sat, covers) goes through the stand-alone queries afterwards. This removes the process start
+// and prefix parsing cost from the large majority of obligations (nil / bounds / frame conditions).
+func incrementalPass(obls []*Obligation, workers int) {
+	if os.Getenv("GVC_NOINC") != "" {
+		return
+	}
+	groups := map[*Ctx][]*Obligation{}
+	var order []*Ctx
+	for _, o := range obls {
+		if o.Cover || o.Result != nil || o.ctx == nil {
+			continue
+		}
+		if _, ok := groups[o.ctx]; !ok {
+			order = append(order, o.ctx)
+		}
+		groups[o.ctx] = append(groups[o.ctx], o)
+	}
+	// large functions are cut into contiguous chunks (each chunk replays the prefix in its own process), so that one
+	// long function does not serialise the pass
+	type job struct {
+		c    *Ctx
+		obls []*Obligation
+	}
+	var jobs []job
+	for _, c := range order {
+		g := groups[c]
+		sort.SliceStable(g, func(i, j int) bool { return g[i].Prefix < g[j].Prefix })
+		const chunk = 30
+		for lo := 0; lo < len(g); lo += chunk {
+			jobs = append(jobs, job{c, g[lo:min(lo+chunk, len(g))]})
+		}
+	}
+	sort.SliceStable(jobs, func(i, j int) bool { return len(jobs[i].c.lines) > len(jobs[j].c.lines) })
+	var wg sync.WaitGroup
+	ch := make(chan job)
+	for i := 0; i < workers; i++ {
+		wg.Add(1)
+		go func() {
+			defer wg.Done()
+			for j := range ch {
+				incrementalGroup(j.c, j.obls)
+			}
+		}()
+	}
+	for _, j := range jobs {
+		ch <- j
+	}
+	close(ch)
+	wg.Wait()
+}
+
+func incrementalGroup(c *Ctx, obls []*Obligation) {
+	sort.SliceStable(obls, func(i, j int) bool { return obls[i].Prefix < obls[j].Prefix })
+	const perCheckMs = 2500
+	start := func() (*exec.Cmd, io.WriteCloser, *bufio.Reader, bool) {
+		cmd := exec.Command("z3-new", "-in", fmt.Sprintf("-t:%d", perCheckMs))
+		in, err1 := cmd.StdinPipe()
+		out, err2 := cmd.StdoutPipe()
+		if err1 != nil || err2 != nil || cmd.Start() != nil {
+			return nil, nil, nil, false
+		}
+		return cmd, in, bufio.NewReader(out), true
+	}
+	cmd, in, rd, ok := start()
+	if !ok {
+		return
+	}
+	defer func() {
+		in.Close()
+		cmd.Process.Kill()
+		cmd.Wait()
+	}()
+	var b bytes.Buffer
+	b.WriteString("(set-logic ALL)\n")
+	b.WriteString(prelude)
+	for _, l := range c.globals {
+		b.WriteString(l)
+		b.WriteByte('\n')
+	}
+	if _, err := in.Write(b.Bytes()); err != nil {
+		return
+	}
+	sent := 0
+	failures := 0
+	for _, o := range obls {
+		b.Reset()
+		for sent < o.Prefix && sent < len(c.lines) {
+			b.WriteString(c.lines[sent])
+			b.WriteByte('\n')
+			sent++
+		}
+		fmt.Fprintf(&b, "(push)\n(assert %s)\n(assert (not %s))\n(check-sat)\n(pop)\n", o.Reach.S, o.Goal.S)
+		t0 := time.Now()
+		if _, err := in.Write(b.Bytes()); err != nil {
+			return
+		}
+		type ans struct {
+			s   string
+			err error
+		}
+		ac := make(chan ans, 1)
+		go func() {
+			line, err := rd.ReadString('\n')
+			ac <- ans{strings.TrimSpace(line), err}
+		}()
+		select {
+		case a := <-ac:
+			if a.err != nil {
+				return
+			}
+			if a.s == "unsat" {
+				o.Result = &SolveResult{Solver: "z3-new-inc", Status: "unsat", Ms: time.Since(t0).Milliseconds()}
+			} else if strings.HasPrefix(a.s, "(error") {
+				return // declaration order problem or similar: leave the rest to the stand-alone queries
+			} else {
+				failures++
+			}
+		case <-time.After(time.Duration(perCheckMs+3000) * time.Millisecond):
+			return // wedged: the deferred kill ends the process; the rest is decided stand-alone
+		}
+		if failures > 25 {
+			return // this context is hard for the incremental mode: do not waste more time here
+		}
+	}
+}
+
 func solveAll(obls []*Obligation, timeoutS int, workers int) {
+	incrementalPass(obls, workers)
 	var wg sync.WaitGroup
 	ch := make(chan *Obligation)
 	for i := 0; i < workers; i++ {
@@ -545,6 +676,9 @@ func solveAll(obls []*Obligation, timeoutS int, workers int) {
 		go func() {
 			defer wg.Done()
 			for o := range ch {
+				if o.Result != nil && o.Result.Status == "unsat" && o.Result.Solver == "z3-new-inc" {
+					continue // discharged by the incremental pass
+				}
 				o.Solve(timeoutS)
 			}
 		}()
